@@ -167,6 +167,12 @@ pub fn gen_text(rng: &mut Rng, term: Term, max_lines: usize) -> Vec<u8> {
                 if rng.chance(1, 6) {
                     data.push(b'\n');
                     data.extend_from_slice(b"foo");
+                } else if rng.chance(1, 6) {
+                    // several of them in one record (more than any context window counts)
+                    for _ in 0..2 + rng.below(6) {
+                        data.push(b'\n');
+                        data.extend_from_slice(if rng.chance(1, 3) { b"qq" } else { b"" });
+                    }
                 }
                 data.push(0)
             }
@@ -305,7 +311,18 @@ pub fn build_searcher(cfg: &Cfg, knobs: &Knobs) -> Searcher {
         .verif_buffer_capacity(knobs.capacity)
         .memory_map(if knobs.mmap { unsafe { MmapChoice::auto() } } else { MmapChoice::never() });
     if cfg.passthru {
-        b.passthru(true);
+        // passthru overrides the context settings whichever setter was called first
+        match (cfg.invert as usize + 2 * cfg.stop_nm as usize + knobs.capacity.unwrap_or(0)) % 3 {
+            0 => {
+                b.passthru(true);
+            }
+            1 => {
+                b.passthru(true).after_context(cfg.a.max(1)).before_context(cfg.b);
+            }
+            _ => {
+                b.before_context(cfg.b).after_context(cfg.a.max(1)).passthru(true);
+            }
+        }
     } else {
         b.before_context(cfg.b).after_context(cfg.a);
     }
